@@ -999,6 +999,60 @@ pub fn t15(prop: &str, seed: u64) -> RunDesc {
     d
 }
 
+/// T16: an object whose count reached zero is revived while its deferred destruction attempt is
+/// still pending, published again in another cell, loaded from there by a pinned reader and
+/// unlinked again during that reader's critical section. The old attempt, whose grace period
+/// has nothing to do with this reader, finds a count it must hand back; only a *new* deferred
+/// attempt may reclaim the object (C13 at the RC layer, C01, C02).
+pub fn t16(prop: &str, seed: u64) -> RunDesc {
+    let mut rng = Rng::new(seed);
+    let mut d = base(&mut rng, prop, "dir-t16", seed, 4);
+    d.cfg.stall = None;
+    let how = rng.below(3);
+    let k = rng.below(5) as usize;
+    let m2 = 2 + rng.below(4) as usize;
+    let mut setup = vec![o(K::New, 0, NONE_SLOT, 2, 0), o(K::Pin, 0, 0, 0, 0)];
+    if how != 0 {
+        setup.extend([o(K::Downgrade, 0, 0, 0, 0), o(K::StoreW, WROOT0, 0, 0, 0)]);
+    }
+    setup.extend([o(K::Store, ROOT0, 0, 0, 0), o(K::Unpin, 0, 0, 0, 0)]);
+    d.threads.push(thread(0, "setup", setup));
+    // H: sees X in ROOT[0], revives it after its count reached zero, publishes it in ROOT[1], and
+    // in a later critical section loads it from there
+    let mut h = vec![o(K::Pin, 0, 0, 0, 0)];
+    match how {
+        0 => h.push(o(K::Load, ROOT0, 0, 0, 0)),
+        1 => h.push(o(K::LoadW, WROOT0, 0, 0, 0)),
+        _ => h.extend([o(K::LoadW, WROOT0, 0, 0, 0), o(K::WsCounted, 0, 0, 0, 0)]),
+    }
+    h.extend([o(K::Signal, 1, 0, 0, 0), o(K::Await, 2, 0, 0, 0)]);
+    match how {
+        0 => h.push(o(K::Counted, 0, 0, 0, 0)),
+        1 => h.extend([o(K::WsUpgrade, 0, 0, 0, 0), o(K::Counted, 0, 0, 0, 0)]),
+        _ => h.extend([o(K::Upgrade, 0, 0, 0, 0), o(K::DropW, 0, 0, 0, 0)]),
+    }
+    h.extend([o(K::Store, ROOT1, 0, 0, 0), o(K::Unpin, 0, 0, 0, 0), o(K::Signal, 3, 0, 0, 0), o(K::Await, 4, 0, 0, 0)]);
+    h.extend([o(K::Pin, 0, 0, 0, 0), o(K::Load, ROOT1, 0, 1, 0), o(K::DerefSnap, 1, 0, 0, 0), o(K::Signal, 5, 0, 0, 0), o(K::Await, 6, 0, 0, 0), o(K::DerefSnap, 1, 0, 0, 0), o(K::Unpin, 0, 0, 0, 0)]);
+    d.threads.push(thread(1, "holder", h));
+    // M: unlinks X from ROOT[0] (count 0, first attempt deferred and sealed), moves the clock k
+    // times without collecting, unlinks X from ROOT[1] under the holder's second critical
+    // section, then collects
+    let mut m = vec![o(K::Await, 1, 0, 0, 0), o(K::Pin, 0, 0, 0, 0), o(K::Store, ROOT0, NONE_SLOT, 0, 0), o(K::Flush, 0, 0, 0, 0), o(K::Unpin, 0, 0, 0, 0), o(K::Signal, 2, 0, 0, 0), o(K::Await, 3, 0, 0, 0)];
+    for _ in 0..k {
+        m.extend([o(K::Pin, 0, 0, 0, 0), o(K::TryAdvance, 0, 0, 0, 0), o(K::Unpin, 0, 0, 0, 0)]);
+    }
+    m.extend([o(K::Signal, 4, 0, 0, 0), o(K::Await, 5, 0, 0, 0), o(K::Pin, 0, 0, 0, 0), o(K::Store, ROOT1, NONE_SLOT, 0, 0), o(K::Unpin, 0, 0, 0, 0)]);
+    m.extend(rounds(m2));
+    m.push(o(K::Signal, 6, 0, 0, 0));
+    d.threads.push(thread(1, "unlinker", m));
+    if rng.chance(0.3) {
+        let n = noise(&mut rng, 1, &d.cfg);
+        d.threads.push(n);
+    }
+    d.params = J::obj().set("template", "T16 revived object republished and unlinked under a later reader while its first attempt is pending").set("revived_by", how).set("clock_moves_between", k).set("rounds_after", m2);
+    d
+}
+
 /// T5: clock wrap — no collection of the interesting objects while stamps age past 16 / 32
 /// epochs, then the T2 choreography.
 pub fn t5(prop: &str, seed: u64) -> RunDesc {
